@@ -4,7 +4,7 @@ from contracts import spec_ttlv
 
 spec_module(spec_ttlv)
 S = "kmip.services.server.session.KmipSession."
-SESSION = ('obj', 'kmip.services.server.session.KmipSession',
+SESSION = ('obj_open', 'kmip.services.server.session.KmipSession',
            {'_connection': ('model', 'Connection'), '_max_buffer_size': ('const', 4096),
             '_logger': 'logger'})
 
@@ -71,7 +71,7 @@ c.havoc_on_raise = {"self.request_header": ('oneof', 'none',
 c.trust("decoder of the request message (covered by C01/ttlvsym); here: any bytes either raise or "
         "yield a request with a header")
 
-LOOP_SESSION = ('obj', 'kmip.services.server.session.KmipSession',
+LOOP_SESSION = ('obj_open', 'kmip.services.server.session.KmipSession',
                 {'_connection': ('model', 'Connection'), '_engine': ('model', 'Engine'),
                  '_max_buffer_size': ('const', 4096), '_max_response_size': ('const', 1048576),
                  '_enable_tls_client_auth': 'bool', '_auth_settings': 'opaque', '_logger': 'logger',
